@@ -119,7 +119,7 @@ def rand_crystal(rng, **kw):
 
 
 NAMED = ('sc', 'fcc', 'bcc', 'diamond', 'hcp', 'square', 'tria', 'honey', 'lieb', 'kagome', 'omega', 'rumpled',
-         'dtria', 'b2', 'l12', 'tet', 'rect')
+         'dtria', 'b2', 'l12', 'tet', 'rect', 'tric', 'mono', 'p4m', 'p2', 'mono2')
 
 
 def named(name):
@@ -146,6 +146,16 @@ def named(name):
     if name == 'l12': return C(np.eye(3), [[np.zeros(3)], [np.array([0., .5, .5]), np.array([.5, 0., .5]),
                                                            np.array([.5, .5, 0.])]]), 1, 0.8
     if name == 'tet': return C(np.diag([1., 1., 1.3]), [np.zeros(3)]), 0, 1.35
+    # low-symmetry crystals (point groups with an invariant axial vector: tensors need not be isotropic or even diagonal)
+    if name == 'tric': return C(np.array([[1., 0.21, 0.17], [0., 0.93, 0.26], [0., 0., 1.08]]), [np.zeros(3)]), 0, 1.16
+    if name == 'mono': return C(np.array([[1., 0.28, 0.], [0., 0.95, 0.], [0., 0., 1.12]]), [np.zeros(3)]), 0, 1.13
+    if name == 'p4m':   # tetragonal 4/m: the decoration (species 1) removes the vertical mirrors
+        x, y = 0.21, 0.09
+        return C(np.diag([1., 1., 1.15]), [[np.zeros(3)], [np.array(v) for v in ((x, y, 0.5), (-y, x, 0.5), (-x, -y, 0.5), (y, -x, 0.5))]]), 0, 1.2
+    if name == 'p2':    # 2-D oblique, two atoms on a general position: 2-fold axis only, sites have a 2-D vector basis
+        return C(np.array([[1., 0.23], [0., 0.91]]), [np.array([0.18, 0.11]), np.array([-0.18, -0.11])]), 0, 1.05
+    if name == 'mono2':  # monoclinic 2/m, two atoms on the mirror plane (site vector basis in the plane)
+        return C(np.array([[1., 0.28, 0.], [0., 0.95, 0.], [0., 0., 1.12]]), [np.array([0.16, 0.12, 0.]), np.array([-0.16, -0.12, 0.])]), 0, 1.13
     raise ValueError(name)
 
 
